@@ -13,6 +13,8 @@ def main():
     ap.add_argument("--no-regen", action="store_true", help="debug: reuse the MIR dumps on disk")
     a = ap.parse_args()
     tier = a.tier if a.tier in ("quick", "thorough") else "quick"
+    # second solver: every 25th obligation query in the quick tier, every 3rd in the thorough tier
+    os.environ.setdefault("VERIF_CROSS_EVERY", "25" if tier == "quick" else "3")
     mod = importlib.import_module("checks.%s" % a.prop.lower())
     try:
         if a.replay:
